@@ -1,8 +1,13 @@
 """C14 — see DESIGN.md §4."""
-from ..spec import run_specs
+from ..spec import run_specs, k1_pairing, size_vs_write, extract
+from ..specs_registry import SPECS
 
 EXPLANATION = "Per write::CallFrameInstruction variant the emitted operand sequences equal the reviewed table and pair with the reader's decoder; factored writes are preceded by the exactness checks with an error exit. Equality of evaluated rows is NOT decided."
 
+S = {s['id']: s for s in SPECS}
+
 
 def run(rep, ctx):
+    g = ctx.g
     run_specs(rep, ctx, 'C14')
+    k1_pairing(rep, g, 'K1-cfa', S['w_cfi_instr'], [S['cfi_instr_parse']], 'DW_CFA_')
